@@ -713,8 +713,28 @@ func (c *c06Case) valid() (string, map[string]bool, bool) {
 		id := cand[c.rng.Intn(len(cand))]
 		c.nBox++
 		name := []string{fmt.Sprintf("Renamed%d", c.nBox)}
-		c.conn.RemoteRenameMailbox(id, name)
 		kind = "MailboxUpdated"
+
+		// sometimes the new name differs from the current one only in the case of its letters
+		if cur := c.conn.MailboxNames()[id]; c.rng.Intn(3) == 0 && len(cur) == 1 {
+			flipped := strings.Map(func(r rune) rune {
+				switch {
+				case r >= 'a' && r <= 'z':
+					return r - 32
+				case r >= 'A' && r <= 'Z':
+					return r + 32
+				}
+
+				return r
+			}, cur[0])
+
+			if flipped != cur[0] {
+				name = []string{flipped}
+				kind = "MailboxUpdated case-only"
+			}
+		}
+
+		c.conn.RemoteRenameMailbox(id, name)
 		mk = func() imap.Update { return imap.NewMailboxUpdated(id, name) }
 	default:
 		kind = "Noop"
